@@ -42,7 +42,7 @@ var poolNumbers = []float64{
 
 // numeric texts (ASCII); every one also appears padded with white space of several kinds, see below.
 var poolTexts = []string{
-	"", " ", "0", "-0", "+0", "1", "-1", "+1", "12", " 12 ", "\t12\n", "\v\f12\r", "1.5", "-1.5", ".5", "5.", "-.5", "+.5e1", "0.5", "-0.5", "0.", ".0", "-0.0", "1.0", "1.50",
+	"", " ", "0", "-0", "+0", "-00", "-000", "00", "1", "-1", "+1", "12", " 12 ", "\t12\n", "\v\f12\r", "1.5", "-1.5", ".5", "5.", "-.5", "+.5e1", "0.5", "-0.5", "0.", ".0", "-0.0", "1.0", "1.50",
 	"010", "-010", "08", "00012", "0012.50", "1e3", "1E3", "1e+3", "1e-3", "0e0", "-0e-400", "1e21", "1e30", "1e400", "-1e400", "1e-400", "-1e-400", "1e1000",
 	"5e-324", "2e-324", "3e-324", "4.9e-324", "2.2250738585072014e-308", "1.7976931348623157e308", "1.7976931348623158e308", "1.7976931348623159e308", "0.1", "0.0000001",
 	"2147483647", "2147483648", "-2147483648", "-2147483649", "4294967295", "4294967296", "4294967297",
@@ -193,6 +193,19 @@ func nativeString(w *worker, u []uint16) goja.Value {
 	return v
 }
 
+// coreNumber: member of the small partner pool
+func coreNumber(f float64) bool {
+	for _, c := range []float64{0, math.Copysign(0, -1), 1, -1, 2, 0.5, -1.5, 32, 255.5, 2147483648, -2147483648, 4294967295,
+		p2(53), p2(53) + 2, -p2(53), p2(63), p2(64) + 4096, -(p2(63) + 2048), 5e-324, 1.1802209130120813e-308, math.Inf(1), math.Inf(-1)} {
+		if c == f && math.Signbit(c) == math.Signbit(f) {
+			return true
+		}
+	}
+	return f != f
+}
+
+var importedCore = map[string]bool{" 12 ": true, "0x10": true, "1e400": true, "0xFFFFFFFFFFFFFFFFFF": true, "\u00a012\u00a0": true, "\u008512": true}
+
 var coreTexts = map[string]bool{"": true, "12": true, " 12 ": true, "-0": true, "1.5": true, "0x10": true, "1e400": true, "Infinity": true, "nan": true, "0xFFFFFFFFFFFFFFFFFF": true, "9007199254740993": true, "1e30": true, "12px": true}
 
 func buildLeaves() []*leaf {
@@ -205,7 +218,7 @@ func buildLeaves() []*leaf {
 	)
 	for _, f := range poolNumbers {
 		f := f
-		ls = append(ls, &leaf{name: "num:" + nm.ShowNum(f), m: nm.Num(f), kind: "num", core: true, js: numLit(f), mk: func(w *worker) goja.Value { return w.rt.ToValue(f) }})
+		ls = append(ls, &leaf{name: "num:" + nm.ShowNum(f), m: nm.Num(f), kind: "num", core: coreNumber(f), js: numLit(f), mk: func(w *worker) goja.Value { return w.rt.ToValue(f) }})
 	}
 	contents := poolStringContents()
 	for _, u := range contents {
@@ -231,9 +244,14 @@ func buildLeaves() []*leaf {
 			pu, pq, pgs = u, q, gs
 		} else {
 			// native twin of the padded content
-			ls = append(ls, &leaf{name: "str:native:" + pq, m: nm.StrU(pu), kind: "str", rep: "native", mid: isCore, js: pq, mk: func(w *worker) goja.Value { return nativeString(w, pu) }})
+			if isCore { // the native twin of the padded content
+				ls = append(ls, &leaf{name: "str:native:" + pq, m: nm.StrU(pu), kind: "str", rep: "native", mid: isCore, js: pq, mk: func(w *worker) goja.Value { return nativeString(w, pu) }})
+			}
 		}
-		ls = append(ls, &leaf{name: "str:imported:" + pq, m: nm.StrU(pu), kind: "str", rep: "imported", fresh: true, core: isCore, mk: func(w *worker) goja.Value { return w.rt.ToValue(pgs) }})
+		ls = append(ls, &leaf{name: "str:imported:" + pq, m: nm.StrU(pu), kind: "str", rep: "imported", fresh: true, core: isCore && importedCore[string(utf16.Decode(u))], mk: func(w *worker) goja.Value { return w.rt.ToValue(pgs) }})
+		if !isCore {
+			continue // the already-scanned variant only for the core contents (after the scan both behave alike)
+		}
 		ls = append(ls, &leaf{name: "str:imported-scanned:" + pq, m: nm.StrU(pu), kind: "str", rep: "imported-scanned", fresh: true, mid: isCore, mk: func(w *worker) goja.Value {
 			v := w.rt.ToValue(pgs)
 			v.(goja.String).Length() // forces the scan
@@ -290,7 +308,7 @@ func buildLeaves() []*leaf {
 			if how != "valueOf" && i%3 != 0 {
 				continue // the other two routes for every third inner value
 			}
-			ls = append(ls, &leaf{name: "obj:" + how + ":" + in.name, m: nm.Obj(in.m), kind: "obj", mid: true, core: how == "valueOf" && (i == 1 || i == 8),
+			ls = append(ls, &leaf{name: "obj:" + how + ":" + in.name, m: nm.Obj(in.m), kind: "obj", mid: true, core: how == "valueOf" && (i == 0 || i == 1 || i == 3 || i == 8 || i == 9 || i == 12 || i == 15 || i == 16),
 				mk: func(w *worker) goja.Value {
 					v, err := w.mkObj[how](goja.Undefined(), in.mk(w))
 					if err != nil {
